@@ -418,7 +418,7 @@ class ExprMixin:
             if isinstance(a.x, str) and isinstance(b.x, str):
                 return z3.BoolVal(a.x == b.x)
             return self.cls_id(a) == self.cls_id(b)
-        if ka == kb and ka in ("int", "K", "V", "bool", "any"):
+        if ka == kb and ka in ("int", "K", "V", "bool", "any", "U"):
             return a.z == b.z
         if {ka, kb} <= {"int", "V"}:
             return a.z == b.z
